@@ -374,12 +374,24 @@ async fn data_flood_exact(case: &serde_json::Value, rep: Arc<Mutex<Report>>) {
     let mux_a = Mux { cfg: mux_cfg(frame, bufsz, count), connect: BTreeMap::new(), accept: [(0, qa.clone())].into_iter().collect() };
     let (ea, eb, _ab, ba) = pipe::pair();
     let _keep = eb;
+    let rd = case["rd"].as_u64().unwrap_or(0) as usize;
+    let rd = &rd;
     let _: Result<(), ctx::Error> = scope::run!(ctx, |ctx, s| async {
         s.spawn_bg(async {
             let _ = mux_a.run(ctx, ea).await;
             Ok(())
         });
         pipe::release(&ba, &hs);
+        // scenarios with rd > 0: the application accepts the stream, reads exactly rd bytes (the last frame only partly) and stalls, keeping the stream
+        if *rd > 0 {
+            s.spawn_bg(async {
+                let mut st = qa.open(ctx).await?;
+                let _ = st.read(ctx, *rd).await;
+                ctx.canceled().await;
+                drop(st);
+                Ok(())
+            });
+        }
         // CONNECT side; the low bits are the reusable stream the frame is addressed to (the capability has two)
         let hdr = |kind: u16, s: u16| (kind | 0b0010_0000_0000_0000 | s).to_le_bytes();
         let mut bytes = vec![];
